@@ -221,7 +221,8 @@ pub fn find_module(
     // Note that `with_extension` can't be used here, it would replace a dotted suffix of the
     // module name (`utils.v2` -> `utils.koto`).
     let result = search_folder.join(format!("{module_name}.{extension}"));
-    if result.exists() {
+    // A directory with a matching name isn't a module file
+    if result.is_file() {
         // The path is used as the key of the loader's and the runtime's module caches,
         // so it has to be the same for every spelling of the module's location
         // (e.g. `import '../shared'` from two different sub-folders).
